@@ -142,6 +142,7 @@ static void
 focus(struct initparser *p)
 {
 	struct type *t;
+	unsigned long long off;
 
 	switch (p->sub->type->kind) {
 	case TYPEARRAY:
@@ -149,17 +150,22 @@ focus(struct initparser *p)
 		p->sub->u.idx = 0;
 		if (p->sub->type->incomplete)
 			p->sub->type->size = t->size;
+		off = 0;
 		break;
 	case TYPESTRUCT:
 	case TYPEUNION:
 		p->sub->u.mem = p->sub->type->u.structunion.members;
+		if (!p->sub->u.mem)
+			error(&tok.loc, "initializer for a structure without members");
 		t = p->sub->u.mem->type;
+		/* unnamed bit-fields may precede the first member */
+		off = p->sub->u.mem->offset;
 		break;
 	default:
 		fatal("internal error: init cursor has unexpected type");
 		return;  /* unreachable */
 	}
-	subobj(p, t, 0);
+	subobj(p, t, off);
 }
 
 static void
